@@ -152,6 +152,14 @@ fn run<S: Fl>(ctx: &mut Ctx) {
             let a = base::<S>($k);
             let mut cases = vec![a.clone()];
             for p in 0..$k { for sp in specials.iter() { let mut c = a.clone(); c[p] = *sp; cases.push(c); } }
+            // every component finite but huge: sums / products / norms of the components overflow
+            let mx = S::max_value();
+            cases.push(vec![mx; $k]);
+            cases.push(vec![-mx; $k]);
+            cases.push((0..$k).map(|i| if i % 2 == 0 { mx } else { -mx }).collect());
+            cases.push((0..$k).map(|i| if i < 2 { mx } else { S::one() }).collect());
+            cases.push(vec![mx / S::c(2.0); $k]);
+            cases.push(vec![S::min_positive_value(); $k]);
             for c in cases {
                 let got = $mk(&c).is_finite();
                 let comps: Vec<bool> = c.iter().map(|x| x.is_finite()).collect();
@@ -193,6 +201,16 @@ fn run<S: Fl>(ctx: &mut Ctx) {
             }
             let sym: Vec<S> = (0..n * n).map(|i| S::c(1.0 + ((i / n) * (i % n)) as f64 + ((i / n) + (i % n)) as f64 * 0.5)).collect();
             cases.push(sym);
+            // large entries, determinant exactly +-1 (the two products of a 2x2 minor agree to many digits, the determinant is far from 0);
+            // the same scaled down so that the determinant is tiny although the matrix is perfectly conditioned
+            for k in [4096.0, 1.0e6, 3.0] {
+                let mut c = ident.clone();
+                c[0] = S::c(k); c[1] = S::c(k + 1.0); c[n] = S::c(k - 1.0); c[n + 1] = S::c(k);
+                cases.push(c.clone());
+                cases.push(c.iter().map(|x| *x * S::c(1.0e-3)).collect());
+                let mut d = c.clone(); d.swap(0, n); d.swap(1, n + 1);      // det = -1
+                cases.push(d);
+            }
             for c in cases {
                 let m = $mk(&c);
                 let el = |cc: usize, r: usize| c[cc * n + r];
